@@ -412,4 +412,95 @@ example : round Profile.dev .heven ⟨-12345, 3⟩ 1 = .ok ⟨-123, 1⟩ ∧ rou
     round Profile.dev .ceil ⟨(10 : Int) ^ 36, 0⟩ (-36) = .ok ⟨(10 : Int) ^ 36, 0⟩ ∧
     round Profile.dev .floor ⟨1, 5⟩ (-50) = .ok ⟨0, 0⟩ ∧ round Profile.dev .floor ⟨0, 0⟩ (-50) = .ok ⟨0, 0⟩ := by decide
 
+/-! ### algebraic laws: `checked_round` against `round` -/
+
+/-- `d.round(n)` is `d.checked_round(n)` with `None` replaced by the overflow panic (all operands, modes, profiles) -/
+theorem round_eq_checked (prof : Profile) (tm : Mode) (d : Dec) (n : Int) :
+    round prof tm d n = panicOnNone (checkedRound prof tm d n) := by
+  unfold round checkedRound
+  cases roundCore prof tm d n with
+  | panic k => rfl
+  | ok o => cases o <;> rfl
+
+/-- `checked_round` never panics on the domain (`n` any `i8`) -/
+theorem checked_round_no_panic (prof : Profile) (tm : Mode) (d : Dec) (n : Int) (hd : Dom d) (hn : -128 ≤ n ∧ n ≤ 127) :
+    ∃ o, checkedRound prof tm d n = .ok o := by
+  have hany : Spec.round tm d.coeff d.nfrac n ≠ .any := by
+    unfold Spec.round
+    split
+    · simp
+    · simp only []
+      split
+      · exact valFit_ne_any _ _
+      · split
+        · simp
+        · exact valFit_ne_any _ _
+  exact allowedChecked_no_panic _ _ (checked_round_spec prof tm d n hd hn) (round_exp_shape tm d.coeff d.nfrac n).2.2 hany
+
+/-- `Some(r)` exactly when `round` returns `r` (no hypothesis) -/
+theorem checked_round_some_iff (prof : Profile) (tm : Mode) (d r : Dec) (n : Int) :
+    checkedRound prof tm d n = .ok (some r) ↔ round prof tm d n = .ok r := by
+  rw [round_eq_checked, panicOnNone_eq_ok_iff]
+
+/-- `None` exactly when `round` panics, the panic being the overflow panic -/
+theorem checked_round_none_iff (prof : Profile) (tm : Mode) (d : Dec) (n : Int) (hd : Dom d) (hn : -128 ≤ n ∧ n ≤ 127) :
+    checkedRound prof tm d n = .ok none ↔ round prof tm d n = .panic .overflow := by
+  obtain ⟨o, ho⟩ := checked_round_no_panic prof tm d n hd hn
+  rw [round_eq_checked, panicOnNone_eq_panic_iff, ho]
+  simp
+
+theorem round_panic_kind (prof : Profile) (tm : Mode) (d : Dec) (n : Int) (k : PanicKind) (hd : Dom d) (hn : -128 ≤ n ∧ n ≤ 127)
+    (h : round prof tm d n = .panic k) : k = .overflow := by
+  obtain ⟨o, ho⟩ := checked_round_no_panic prof tm d n hd hn
+  rw [round_eq_checked, panicOnNone_eq_panic_iff, ho] at h
+  simp at h
+  exact h.2
+
+example : checkedRound Profile.dev .heven ⟨-12345, 3⟩ 1 = .ok (some ⟨-123, 1⟩) ∧ round Profile.dev .heven ⟨-12345, 3⟩ 1 = .ok ⟨-123, 1⟩ ∧
+    checkedRound Profile.release .up ⟨1, 0⟩ (-39) = .ok none ∧ round Profile.release .up ⟨1, 0⟩ (-39) = .panic .overflow ∧
+    checkedRound Profile.dev .ceil ⟨I128_MAX, 0⟩ (-1) = .ok none ∧ round Profile.dev .ceil ⟨I128_MAX, 0⟩ (-1) = .panic .overflow := by
+  decide
+
+/-! ### algebraic laws: rounding to fewer fractional digits always succeeds -/
+
+/-- the rounded quotient of a coefficient of the domain by a positive divisor is again one, and it has the sign of the dividend
+    (or is zero) -/
+theorem specRound_dom (tm : Mode) (a d : Int) (ha : I128_MIN < a ∧ a ≤ I128_MAX) (hd : 0 < d) :
+    (I128_MIN < Spec.specRound tm a d ∧ Spec.specRound tm a d ≤ I128_MAX) ∧
+    (0 ≤ a → 0 ≤ Spec.specRound tm a d) ∧ (a < 0 → Spec.specRound tm a d ≤ 0) := by
+  have hf := (fitsI128_iff _).mp (specRound_fits tm a d ⟨Int.le_of_lt ha.1, ha.2⟩ hd)
+  have h1 : a / d ≤ Spec.specRound tm a d ∧ Spec.specRound tm a d ≤ a / d + 1 := by
+    unfold Spec.specRound
+    simp only []
+    by_cases hr : a % d = 0
+    · simp only [hr, if_true]; omega
+    · simp only [hr, if_false]
+      constructor <;> (cases tm <;> simp only [] <;> (repeat' split) <;> omega)
+  refine ⟨⟨?_, hf.2⟩, ?_, ?_⟩
+  · by_cases h0 : 0 ≤ a
+    · have := Int.ediv_nonneg h0 (Int.le_of_lt hd); unfold I128_MIN; omega
+    · have := ediv_ge_of_neg (x := a) (by omega) hd; omega
+  · intro h0
+    have := Int.ediv_nonneg h0 (Int.le_of_lt hd); omega
+  · intro h0
+    have := Int.ediv_neg_of_neg_of_pos h0 hd; omega
+
+/-- `x.round(P)` with `0 ≤ P < p`: never a panic — the coefficient rounded under the mode, `P` fractional digits -/
+theorem round_fewer_digits (prof : Profile) (tm : Mode) (x : Dec) (P : Nat) (hx : Dom x) (hP : P < x.nfrac) :
+    round prof tm x P = .ok ⟨Spec.specRound tm x.coeff ((10 : Int) ^ (x.nfrac - P)), P⟩ := by
+  have hp := hx.2.2
+  have hs := round_spec prof tm x P hx (by omega)
+  unfold Spec.round at hs
+  have h1 : ¬ ((P : Nat) : Int) ≥ (x.nfrac : Int) := by omega
+  have h2 : ((P : Nat) : Int) ≥ 0 := by omega
+  have e1 : ((x.nfrac : Int) - ((P : Nat) : Int)).toNat = x.nfrac - P := by omega
+  have e2 : (((P : Nat) : Int)).toNat = P := by omega
+  simp only [h1, h2, if_false, if_true, e1, e2] at hs
+  obtain ⟨⟨k1, k2⟩, -, -⟩ := specRound_dom tm x.coeff ((10 : Int) ^ (x.nfrac - P)) ⟨hx.1, hx.2.1⟩ (pow10_pos _)
+  rw [valFit_of_fits P (Int.ne_of_gt k1) (by rw [fitsI128_iff]; omega)] at hs
+  exact ok_of_allowed_val hs
+
+example : round Profile.dev .heven ⟨-12345, 3⟩ 1 = .ok ⟨-123, 1⟩ ∧ Spec.specRound .heven (-12345) (10 ^ (3 - 1)) = -123 ∧
+    round Profile.release .up ⟨I128_MAX, 18⟩ 0 = .ok ⟨170141183460469231732, 0⟩ := by decide
+
 end Fpdec.Props.C05
